@@ -24,6 +24,10 @@ CHECKS = {
         text="Bounded symbolic proof over the real container operators (+, sum(), *, ==), Indexer (int / slice / iteration, selection enumerated by the solver) and constructor shape checks: element-wise sums/products, invariance of sampled estimates under scaling, equality <=> structural equality, selections equal numpy slicing and commute with summation and sampling, malformed shapes/operands raise.",
         note=_REAL + " Non-contiguous fancy selections outside the claim.",
         technique="symbolic execution of real numpy code on object arrays of z3 reals + SMT discharge per path; selections as solver choices"),
+    "C10": dict(level="other", ref="DESIGN.md 4/C10",
+        text="Bounded symbolic proof over the real build_trees (np.digitize + groupby + AngularTree) and _redshift_histogram: redshifts, weights and bin edges are solver variables, so values exactly on any inner/outer edge or outside the range are covered; z3 proves per-bin membership, record counts, weight sums and histogram counts equal the (lo,hi] / [lo,hi) rule for both closed sides, weighted and unweighted, and that empty bins or an empty patch raise nothing; trees and histogram agree.",
+        note=_REAL + " KDTree replaced by a container; digitize/histogram/argsort/unique kernels re-implemented per numpy's documented rules (conformance-tested per run); objects <= 4, bins <= 3.",
+        technique="symbolic execution of real numpy code on object arrays of z3 reals (forking comparisons) + SMT discharge per path"),
 }
 NOT_APPLICABLE = [dict(property_id=p, reason="check not built yet in this session (work in progress; see DESIGN.md section 8 build order)") for p in
-    ["C01","C02","C05","C06","C07","C08","C09","C10","C11","C12","C13","C14","C15","C16","C18"]]
+    ["C01","C02","C05","C06","C07","C08","C09","C11","C12","C13","C14","C15","C16","C18"]]
